@@ -535,12 +535,14 @@ def selftest(h, params, ctx0, seed, n=8):
             continue
         if rep.status != "ok":
             out["failures"].append("concrete run %s: %s %r inputs=%s" % (rep.status, rep.reason, rep.exc, vals))
+            out.setdefault("failed_obligations", []).append("no-unexpected-exception")
             out["vectors"] += 1
             continue
         out["vectors"] += 1
         bad = [(o.name, o.detail) for o in rep.ctx.obs if not o.ok]
         if bad:
             out["failures"].append("oracle disagrees with real code on plain inputs %s: %s" % (vals, bad[:3]))
+            out.setdefault("failed_obligations", []).extend(b[0] for b in bad)
             continue
         # pinned symbolic run
         pins = dict(vals)
@@ -594,6 +596,13 @@ def run_instance(h, params, tier, seed, replay_dir):
             res["selftest"] = selftest(h, params, ctx0, seed, n=8 if tier == "quick" else 24)
         except Exception as e:
             res["selftest"] = dict(vectors=0, failures=["selftest crashed: %r" % (e,)])
+        st = res["selftest"]
+        reported = {v["obligation"] for v in res["violations"]} | {v["obligation"] for v in res["known"]}
+        if st.get("failures") and reported and set(st.get("failed_obligations", ["?"])) <= reported:
+            # plain-number runs fail exactly where the solver found (and replayed) a violation: that is the
+            # violation showing again, not a harness error
+            st["failures_matching_violations"] = st.pop("failures")
+            st["failures"] = []
     if h.canary:
         c = explore(h, params, tier, seed, canary=True, known=(), stop_on_violation=True,
                     budget_s=120 if tier == "quick" else 600)
